@@ -1532,7 +1532,7 @@ class PosVelArray(PositionArray):
             v_unit = self.trs.vel.unit_vector
             c_unit = nputil.unit_vector(np.cross(r_unit, v_unit))
             a_unit = nputil.unit_vector(np.cross(c_unit, r_unit))
-            self._cache["trs2acr"] = np.stack((a_unit, c_unit, r_unit), axis=1)
+            self._cache["trs2acr"] = np.stack((a_unit, c_unit, r_unit), axis=-2)
         return self._cache["trs2acr"]
 
     @property
